@@ -41,6 +41,7 @@ FIXED = [
  (["C17"], "fix: init_stack_program_start places the entry frame above", "the entry frame was carved out of the requested stack size; sizes below the frame size failed"),
  (["C06"], "fix: XORPS rejects a memory operand that is not 16-byte aligned", "XORPS with a misaligned m128 completed instead of failing (native #GP)"),
  (["C13"], "fix: brk with an address below the heap start", "brk(p) with p below the heap base panicked ('attempt to subtract with overflow')"),
+ (["C16"], "fix: debug builds no longer panic on an unknown ELF segment type", "in builds with debug assertions an unknown p_type with p_vaddr == 0 panicked inside a debug_log! argument ('Unknown segment type'); found by the dev-like profile run of the thorough tier (keys devlike|elf-load|panic@src/elf/elf.rs(Unknown segment type)|*)"),
 ]
 
 OPEN_WHAT = {
@@ -58,9 +59,13 @@ def main():
         prop, path = arg.split("=", 1)
         for l in open(path):
             m = re.match(r"\s+key=(.*?) what=(.*)$", l.rstrip("\n"))
-            if not m:
+            k = re.match(r"KNOWN-FINDING: property=\S+ (\S+) ", l)
+            if m:
+                key = m.group(1)
+            elif k:
+                key = k.group(1)
+            else:
                 continue
-            key = m.group(1)
             if prop == "C04":
                 what = OPEN_WHAT["C04"]
             elif key.startswith("Idiv_rm64"):
